@@ -36,7 +36,7 @@ def checkUri (p : Doc) (k : String) : Option Err :=
   if !v.truthy then none
   else match v with
     | .a (.str s) => if isValidUrl s.toList false then none else some (.invalid k)
-    | _ => some (.crash "AttributeError")
+    | _ => some (.invalid k)
 
 def validUriStr (x : A) : Bool := match x with | .str s => isValidUrl s.toList false | _ => false
 
@@ -66,7 +66,7 @@ def scopeCheck (supported : List String) (v : V) : Option Bool :=
 
 def claimValue (c : Option Bool) (k : String) : Option Err :=
   match c with
-  | none => some (.crash "TypeError")
+  | none => some (.invalid k)          -- TypeError inside the validator counts as "not supported"
   | some true => none
   | some false => some (.invalid k)
 
@@ -94,7 +94,7 @@ def validateClaims (sm : ServerMeta) (p : Doc) (jwksOk : Option Bool) : CR :=
     | none => none
   let scopeC := match sm.scopes with
     | some g => (match scopeCheck g (mget p "scope") with
-        | none => some (.crash "AttributeError")
+        | none => some (.invalid "scope")
         | some true => none
         | some false => some (.invalid "scope"))
     | none => none
